@@ -19,3 +19,5 @@ open Biogo.Properties.C17
 #print axioms accepts_iff_involution
 #print axioms rejects_non_bijection
 #print axioms second_bijection_test_redundant
+#print axioms newComplementor_accepts_every_pairing
+#print axioms complement_valid_not_general
